@@ -36,7 +36,10 @@ WEAK_PIPELINE = {
     "NoEndHeightRepair": {"NoStuck"},
     "HandshakeAcceptsAppAhead": {"JournalWellFormed"},
     "EmptyStoreAcceptsAppAhead": {"JournalWellFormed"},
+    "NoInitialHeightBase": {"NoStuck"},
 }
+IH = 5          # genesis InitialHeight of the "chain that starts above height 1" runs
+IH_BLOCKS = 2
 
 # attack-schedule library: crash between SaveBlock and the #ENDHEIGHT write of height h, then again
 # in height h+1 after the key has signed its prevote (found by TLC with Weak_NoEndHeightRepair)
@@ -70,13 +73,13 @@ TRIPLE_ATTACKS = [
 
 
 # ------------------------------------------------------------------------------ spec label -> harness label
-def harness_label(a):
+def harness_label(a, ih=1):
     """Operation label of TMCommitPipeline!Label -> label pattern of the Go harness ("op/k/h/i")."""
     n, h, i = a["name"], a["h"], a["i"]
     t = {
         "HS_Info": ("abci", "Info", 0, 0), "HS_InitChain": ("abci", "InitChain", 0, 0),
-        "HS_SaveGenVals1": ("db", "ss:vals", 1, 0), "HS_SaveGenVals2": ("db", "ss:vals", 2, 0),
-        "HS_SaveGenParams": ("db", "ss:params", 1, 0), "HS_SaveGenState": ("db", "ss:state", 0, 0),
+        "HS_SaveGenVals1": ("db", "ss:vals", ih, 0), "HS_SaveGenVals2": ("db", "ss:vals", ih + 1, 0),
+        "HS_SaveGenParams": ("db", "ss:params", ih, 0), "HS_SaveGenState": ("db", "ss:state", 0, 0),
         "EC_Begin": ("abci", "BeginBlock", h, 0), "AB_Begin": ("abci", "BeginBlock", h, 0),
         "EC_Deliver": ("abci", "DeliverTx", h, i), "AB_Deliver": ("abci", "DeliverTx", h, i),
         "EC_End": ("abci", "EndBlock", h, 0), "AB_End": ("abci", "EndBlock", h, 0),
@@ -102,12 +105,12 @@ def harness_label(a):
     return "%s/%s/%s/%s" % t
 
 
-def run_specs_from_tlc(scheds, prefix="tlc"):
+def run_specs_from_tlc(scheds, prefix="tlc", ih=1):
     out, skipped = [], 0
     for sc in scheds:
         if not sc:
             continue
-        labs = [harness_label(a) for a in sc]
+        labs = [harness_label(a, ih) for a in sc]
         if any(x is None for x in labs):
             skipped += 1
             continue
@@ -123,12 +126,12 @@ def run_specs_from_tlc(scheds, prefix="tlc"):
 
 
 # ------------------------------------------------------------------------------ harness plumbing
-def pipeline_input(runs, retain=None, hash_mode="commits"):
-    return {"heights": HEIGHTS, "plan": PLAN, "param_at": PARAM_AT, "retain": RETAIN if retain is None else retain,
-            "hash_mode": hash_mode, "runs": runs}
+def pipeline_input(runs, retain=None, hash_mode="commits", initial_height=1, heights=HEIGHTS):
+    return {"heights": heights, "plan": PLAN, "param_at": PARAM_AT, "retain": RETAIN if retain is None else retain,
+            "hash_mode": hash_mode, "initial_height": initial_height, "runs": runs}
 
 
-def run_pipeline(ctx, binp, runs, tag, procs, retain=None, hash_mode="commits"):
+def run_pipeline(ctx, binp, runs, tag, procs, retain=None, hash_mode="commits", initial_height=1, heights=HEIGHTS):
     """Execute run specs on the real node, sharded over `procs` processes. Returns rows in run order."""
     if not runs:
         return []
@@ -140,7 +143,7 @@ def run_pipeline(ctx, binp, runs, tag, procs, retain=None, hash_mode="commits"):
         inp = os.path.join(d, "in-%d.json" % k)
         outp = os.path.join(d, "out-%d.ndjson" % k)
         with open(inp, "w") as f:
-            json.dump(pipeline_input(shards[k], retain, hash_mode), f)
+            json.dump(pipeline_input(shards[k], retain, hash_mode, initial_height, heights), f)
         rc, txt = ctx.run_test(binp, "^TestVerifC05Pipeline$", {"VERIF_IN": inp, "VERIF_OUT": outp},
                                timeout=1500, label="pipeline-%s-%d" % (tag, k))
         if rc != 0:
@@ -217,6 +220,7 @@ def run(ctx):
     nonvac = {}
     attacks = list(ATTACKS)
     triple_attacks = list(TRIPLE_ATTACKS)
+    ih_attacks = []
     for w, expect in WEAK_PIPELINE.items():
         rw = ctx.tlc("C05_pipeline", "C05_weak_%s.cfg" % w, timeout=600, workers=4, label="weak_" + w)
         got = {v["name"] for v in rw.violations}
@@ -233,6 +237,9 @@ def run(ctx):
             last = rw.violations[0]["trace"][-1][1]
             synth, _ = run_specs_from_tlc([to_json(last["s"])["sched"]], "atk-tlc-" + w)
             triple_attacks += synth
+        if w == "NoInitialHeightBase" and rw.violations and rw.violations[0]["trace"]:
+            last = rw.violations[0]["trace"][-1][1]
+            ih_attacks, _ = run_specs_from_tlc([to_json(last["s"])["sched"]], "atk-tlc-" + w, IH)
     for w in ("CommitWithoutMempoolLock", "NoFlushBeforeCommit"):
         rw = ctx.tlc("C05_mplock", "C05_mplock_weak_%s.cfg" % w, timeout=600, workers=4, label="mplock_weak_" + w)
         if rw.errors or rw.timed_out or not any(v["name"] == "NoNewCheckDuringCommit" for v in rw.violations):
@@ -272,6 +279,12 @@ def run(ctx):
         [sc for sc in scheds_tr if any(a.get("fwd") or a.get("rbs") or a.get("rss") for a in sc)], "tlctr")
     n_tr_scheds = len(tr_tlc_runs)
     exhaustive_runs.append(r_tr)
+    # a chain whose genesis InitialHeight is above 1: state.LastBlockHeight stays 0 until the first block,
+    # the store height jumps from 0 to InitialHeight
+    r_ih, scheds_ih = export_schedules("C05_ih.cfg", "C05_ih_run.cfg",
+                                       {"MaxHeight": IH_BLOCKS, "MaxCrashes": 1 if quick else 2}, "schedules_initial_height")
+    ih_tlc_runs, _ = run_specs_from_tlc(scheds_ih, "tlcih", IH)
+    exhaustive_runs.append(r_ih)
     n_tlc_scheds = len(tlc_runs)
     if quick:
         # single-crash schedules duplicate the index-exhaustive single crashes below: replay a seeded half
@@ -342,6 +355,25 @@ def run(ctx):
     rows_tr += run_pipeline(ctx, binp, tr_c, "triples-hc", procs, retain={})
     tr_skipped_runs = [r["run"] for r in rows_tr if r["ev"] == "OperatorSkipped"]
 
+    # InitialHeight > 1: every operation of the FIRST block's pipeline (quick) / of the whole run (thorough)
+    # is a crash point; plus TLC's schedules of C05_ih
+    ihkw = dict(retain={}, initial_height=IH, heights=IH_BLOCKS)
+    free_ih = run_pipeline(ctx, binp, [{"id": "free-ih", "crashes": []}], "freeih", 1, **ihkw)
+    n0ih = ops_of_incarnation(free_ih, 0)
+    first_saved = [r["idx"] for r in free_ih if r["ev"] == "Op" and r["k"] == "ss:state" and r["h"] == IH]
+    if free_ih[-1]["ev"] != "Done" or not first_saved:
+        raise Undecided("crash-free run with InitialHeight %d did not complete" % IH)
+    last_ih = n0ih if not quick else min(n0ih, first_saved[0] + 2)
+    ih_runs = [{"id": "ih:%d" % i, "crashes": [{"idx": i, "label": "", "occ": 0}]} for i in range(1, last_ih + 1)]
+    if quick:
+        rnd.shuffle(ih_tlc_runs)
+        ih_tlc_runs = ih_tlc_runs[:12]
+    else:
+        ih_runs += [{"id": "ih2:%d,%d" % (i, j), "crashes": [{"idx": i, "label": "", "occ": 0}, {"idx": j, "label": "", "occ": 0}]}
+                    for i, j in [(1 + rnd.randrange(n0ih), 1 + rnd.randrange(25)) for _ in range(150)]]
+        ih_runs = list({r["id"]: r for r in ih_runs}.values())
+    rows_ih = run_pipeline(ctx, binp, ih_runs + ih_attacks + ih_tlc_runs, "ih", procs, **ihkw)
+
     # TLC schedules that the real node did not realise (a crash label that never came up)
     want_by_id = {r["id"]: len(r["crashes"]) for r in tlc_runs}
     unrealised = [rr[0]["run"] for rr in split_by_run(rows_tlc)
@@ -374,7 +406,7 @@ def run(ctx):
         raise Undecided("C05 mempool harness (v0) died: %s" % dead["v0"])
 
     # ---- 5. trace validation (TLC judges the observed behaviour) ----------------------------------
-    rows_p = free + rows_k1 + rows_k2 + rows_tlc + free_rb + rows_rb + rows_tr
+    rows_p = free + rows_k1 + rows_k2 + rows_tlc + free_rb + rows_rb + rows_tr + free_ih + rows_ih
     vp = core.validate_traces(ctx, "TMCommitPipelineTrace", rows_p, label="pipeline", max_events=3000 if quick else 6000,
                                timeout=1500)
     vm = core.validate_traces(ctx, "TMMempoolLockTrace", rows_m, label="mempool", max_events=4000, timeout=1200)
@@ -385,6 +417,9 @@ def run(ctx):
     specs_by_id.update({r["id"]: r for r in rb_runs + rb_tlc_runs + tr_txs + tr_c})
     noprune_ids |= {r["id"] for r in tr_txs + tr_c}
     txs_hash_ids = {r["id"] for r in tr_txs}
+    ih_ids = {r["id"] for r in ih_runs + ih_attacks + ih_tlc_runs} | {"free-ih"}
+    specs_by_id.update({r["id"]: r for r in ih_runs + ih_attacks + ih_tlc_runs})
+    noprune_ids |= ih_ids
     mspec_by_id = {r["id"]: r for r in mruns}
     verdict = core.Verdict(ctx)
     for v in vp["viol"]:
@@ -393,7 +428,9 @@ def run(ctx):
                "phase": row["phase"]}
         verdict.add(sig, {"part": "pipeline", "failing_step": row, "run_spec": specs_by_id.get(row["run"]),
                           "retain": {} if row["run"] in noprune_ids else RETAIN,
-                          "hash_mode": "txs" if row["run"] in txs_hash_ids else "commits", "prefix": v["prefix"][-60:],
+                          "hash_mode": "txs" if row["run"] in txs_hash_ids else "commits",
+                          "initial_height": IH if row["run"] in ih_ids else 1,
+                          "heights": IH_BLOCKS if row["run"] in ih_ids else HEIGHTS, "prefix": v["prefix"][-60:],
                           "tlc": {"inv": v["inv"], "class": v["class"]}})
     for v in vm["viol"]:
         row = v["row"]
@@ -439,6 +476,11 @@ def run(ctx):
                 key = "%s -> %s%s" % (tag, r["ev"], (":" + r["msg"]) if r["msg"] else "")
                 hs_out[key] = hs_out.get(key, 0) + 1
                 break
+    ih_out = {}
+    for rr in split_by_run(rows_ih):
+        last = [r for r in rr if r["ev"] in ("Done", "Stuck", "Panic", "HandshakeError")][-1:]
+        key = (last[0]["ev"] + (":" + last[0]["msg"] if last[0]["msg"] else "")) if last else "no outcome"
+        ih_out[key] = ih_out.get(key, 0) + 1
     minter = {}
     for r in rows_m:
         if r["ev"] == "CheckIssue":
@@ -462,10 +504,11 @@ def run(ctx):
                 "restart, an older copy of the block store and/or state store (with its WAL and key state) is put back and/or "
                 "the application is 1-2 blocks ahead or behind - every (store, state, app) triple with cursors at most 2 apart, "
                 "enumerated by TLC (C05_triples) plus a fixed attack list, with an app hash that ignores empty blocks and with "
-                "one that covers the height. mempool: %d concurrent runs "
+                "one that covers the height. initial height: a chain whose genesis InitialHeight is %d, every operation of its "
+                "first block's pipeline (thorough: of the whole run, plus pairs) as a crash point, %d runs. mempool: %d concurrent runs "
                 "(v0/v1 x local/queueing client), every stamped event validated" % (
                     HEIGHTS, n0, len(pairs), n_pairs_total, len(triples), len(tlc_runs), n_tlc_scheds, tlc_skipped, len(rb_runs) + len(rb_tlc_runs),
-                    len(tr_txs) + len(tr_c), len(mruns)),
+                    len(tr_txs) + len(tr_c), IH, len(ih_runs) + len(ih_attacks) + len(ih_tlc_runs), len(mruns)),
         "samples": [core.abridge([{k: r[k] for k in ("ev", "op", "k", "h", "i", "inc", "phase", "msg")} | {"post": r["post"]}
                                   for r in (sample_crash[0] if sample_crash else all_runs[1])][28:60], 32),
                     core.abridge([{k: r[k] for k in ("ev", "kind", "id", "n", "ver", "client", "seq")} for r in rows_m[:40]], 40)],
@@ -485,6 +528,9 @@ def run(ctx):
         "tlc_schedules_not_realised_by_the_node": unrealised[:10],
         "tlc_schedules_not_realised_count": len(unrealised),
         "app_rollback_runs": len(rb_runs) + len(rb_tlc_runs),
+        "initial_height_runs": {"initial_height": IH, "crash_points_of_the_crash_free_run": n0ih,
+                                "crash_points_replayed": last_ih, "tlc_schedules": len(ih_tlc_runs),
+                                "outcomes": ih_out},
         "operator_triple_runs": {"txs_only_app_hash": len(tr_txs), "height_covering_app_hash": len(tr_c),
                                  "tlc_triple_schedules": n_tr_scheds, "operator_action_skipped": tr_skipped_runs[:5]},
         "handshake_outcomes_on_operator_triples": hs_out,
@@ -549,7 +595,8 @@ def replay(ctx, path):
             log("replay: %s fails at %s" % (x["inv"], json.dumps(row)[:300]))
         return verdict.finish()
     spec = rep.get("run_spec") or {"id": "free", "crashes": []}
-    rows = run_pipeline(ctx, binp, [spec], "replay", 1, retain=rep.get("retain"), hash_mode=rep.get("hash_mode", "commits"))
+    rows = run_pipeline(ctx, binp, [spec], "replay", 1, retain=rep.get("retain"), hash_mode=rep.get("hash_mode", "commits"),
+                        initial_height=rep.get("initial_height", 1), heights=rep.get("heights", HEIGHTS))
     v = core.validate_traces(ctx, "TMCommitPipelineTrace", rows, label="replay")
     for x in v["viol"]:
         row = x["row"]
